@@ -21,7 +21,7 @@ META = dict(
     functions_encoded=['version.order', 'version.cisdigit', 'version.cisalpha', 'version.verrevcmp', 'version.Compare',
                        'version.Slice.Len', 'version.Slice.Less', 'version.Parse/parseInto (concrete instances only)'],
     stubs=[],
-    bounds={'quick': 'verrevcmp: all pairs of strings over [A-Za-z0-9.+~:-] with |a|,|b| <= 4, plus digit runs beyond 64 bits: a 19-, 20- or 40-digit concrete string shared as prefix (or suffix) with symbolic tails (heads) of up to 2 characters over [0-9.~a]; Compare/Less: any 64-bit epochs, upstream <= 2, revision <= 1 bytes per side',
+    bounds={'quick': 'verrevcmp: all pairs of strings over [A-Za-z0-9.+~:-] with |a|,|b| <= 4, plus shared 3-6 character contexts (1.0~rc, 2.10+b, 0.7a-, 1~~) followed by symbolic tails of up to 2 characters over the whole alphabet, plus digit runs beyond 64 bits: a 19-, 20- or 40-digit concrete string shared as prefix (or suffix) with symbolic tails (heads) of up to 2 characters over [0-9.~a]; Compare/Less: any 64-bit epochs, upstream <= 2, revision <= 1 bytes per side',
             'thorough': 'verrevcmp: |a|,|b| <= 6 (plus the long-digit-run families); Compare/Less: any 64-bit epochs, upstream <= 3, revision <= 2'},
     outside_claim=['strings longer than the bound', 'characters outside [A-Za-z0-9.+~:-] (the parser admits no others)'],
     assumptions=['oracle: the Policy 5.6.12 / dpkg verrevcmp algorithm written as SMT terms (checks/specs.py, formulation S2) and, for replay, as Go (harness specCmp); the two are compared on the validation inputs'])
@@ -44,12 +44,18 @@ def jobs(tier):
                 js.append(dict(name='long_pre_%s_%d_%d' % (fixed[:6].decode() + str(len(fixed)), la, lb), kind='long', fixed=fixed, where='prefix', la=la, lb=lb))
                 if la and lb and (tier == 'thorough' or la + lb <= 3):
                     js.append(dict(name='long_suf_%s_%d_%d' % (fixed[:6].decode() + str(len(fixed)), la, lb), kind='long', fixed=fixed, where='suffix', la=la, lb=lb))
+    # longer strings with a shared concrete context and symbolic tails over the whole alphabet
+    for fixed in CONTEXTS if tier == 'thorough' else CONTEXTS[:4]:
+        for la in range(0, 3):
+            for lb in range(la, 3):
+                js.append(dict(name='ctx_%s_%d_%d' % (fixed.decode().replace('~', 't').replace(':', 'c').replace('+', 'p'), la, lb), kind='long', fixed=fixed, where='prefix', la=la, lb=lb, alph='full'))
     js.append(dict(name='canary_2_2', kind='canary', la=2, lb=2))
     js.sort(key=lambda j: -(j.get('la', 0) + j.get('lb', 0) + sum(j.get('lens', ())) + (4 if j['kind'] == 'long' else 0)))
     return js
 
 
 LONG = [b'9' * 19, b'9' * 20, b'1844674407370955161', b'0' * 19, b'9' * 40]
+CONTEXTS = [b'1.0~rc', b'2.10+b', b'0.7a-', b'1~~', b'3:1.02.', b'10.010', b'a.+~-', b'1.0~~~']
 
 
 def run_job(env, job):
@@ -73,7 +79,7 @@ def run_job(env, job):
             a, b = (Str(fx + a), Str(fx + b)) if job['where'] == 'prefix' else (Str(a + fx), Str(b + fx))
         I, ctx = env.interp(merge=True, unwind=4 * max(len(a), len(b)) + 8, timeout_ms=900000)
         for c in list(sa) + list(sb):
-            ctx.assume(in_set(c, ALPH if job['kind'] == 'rev' else DIGITS_DOT))
+            ctx.assume(in_set(c, ALPH if (job['kind'] == 'rev' or job.get('alph') == 'full') else DIGITS_DOT))
         outs = I.call(V + 'verrevcmp', [a, b], I.new_state())
         spec = specs.dpkg_cmp(a, b)
         bad = []
